@@ -22,7 +22,7 @@ StepClauses(c, a, b, first) ==
                             /\ b.report = a.report )
         THEN {"InitKeeps"} ELSE {})
   \cup (IF b.rules = "M" /\ a.rules # "M" /\ c \notin {"up_migrate", "init"} THEN {"MigrationOnlyOnRequest:" \o c} ELSE {})
-  \cup (IF \E x \in {"R", "U", "E", "B", "V", "D", "G"} : OnDisk(first, x) /\ ~OnDisk(b, x) THEN {"BackupKeptAndNothingLost"} ELSE {})
+  \cup (IF \E x \in {"R", "U", "E", "B", "V", "X", "D", "G"} : OnDisk(first, x) /\ ~OnDisk(b, x) THEN {"BackupKeptAndNothingLost"} ELSE {})
   \cup (IF first.settings.base # "absent" /\ ~IsExtension(first.settings, b.settings) THEN {"SettingsOnlyGrow"} ELSE {})
   \cup (IF Apply(c, a) # b THEN {"CONF " \o c} ELSE {})
 
